@@ -342,6 +342,10 @@ func (e *Engine) store(st *State, a *Addr, v string) {
 		nv := e.update(sx("select", h, a.Ref), si.ftypes[a.Path[0].Field], a.Path[1:], v)
 		e.heapSet(st, c, s, sx("store", h, a.Ref, nv))
 	case aElem:
+		if strings.Contains(a.Ref, "arrview!") {
+			// A13: a slice of a local / package-level array is a read-only view
+			panic(unsupported{"write through a slice of a local or package-level array"})
+		}
 		c, s := e.elemComp(a.Base)
 		h := e.heapGet(st, c, s)
 		arr := sx("select", h, a.Ref)
